@@ -12,7 +12,10 @@ Domain
     generic through `typing.Generic[T]` or an own `__class_getitem__`); classes defined inside classes, used as bases
     (`class B(A.Inner)`, also through imports of the host) and deriving from siblings / outer classes; external bases
     (builtins, undefined names, aliases into a package that is not loaded) sprinkled in; now and then back edges that
-    make the graph cyclic. Half of the package cases carry a *history* played on one loader / modules collection: the
+    make the graph cyclic. Two-distribution layouts: the first modules form a library of their own - a second top-level
+    package, or top-level modules - whose module / package names repeat names used inside the first package and whose
+    class names are repeated by their subclasses (`c07pkg.m2.C0(m2.C0)`, `c07pkg.m1.C0(pkg.m1.C0)`), reached through every
+    import form but the wildcard. Half of the package cases carry a *history* played on one loader / modules collection: the
     package with the subclasses is loaded and every class queried while the bases' package is not loaded yet, then that
     package is loaded too ("late"); or everything is loaded and queried and one class is then replaced in its module
     through `set_member` by a class with other bases and members ("replace"). The answers for the final tree are judged.
@@ -75,6 +78,8 @@ ASSUMPTIONS = [
     "re-computed everytime they are accessed'; base classes 'will be resolved' on every access); the replacement class of a 'replace' history is built with "
     "griffe.Class(name, bases=[<paths>]) + set_member, the documented producer API; its expectation is CPython's view of the hierarchy with that class replaced; "
     "no wildcard form in 'late' histories",
+    "repeated names: a class may have the name of a class in another module (also of its own base, which is then reached through a renamed import or a dotted "
+    "path, never by the bare same name - docs, limitation 2: `class SomeClass(SomeClass)` is not supported statically); no wildcard form between the two distributions",
     "import forms only reach classes defined in the named module (re-export chains use renamed from-imports); module and member names never collide",
 ]
 EXHAUSTIVE = True
@@ -110,11 +115,10 @@ def _write_pkg(files: dict[str, str]) -> Path:
 
 
 def _find_classes(case, collection) -> list:
-    host = H.hosts(case)
     out = []
-    for i, m in enumerate(case["mods"]):
-        obj = collection.members.get(H.pkg_of(case, m))
-        for part in ([f"m{m}", f"C{i}"] if host[i] is None else [f"m{m}", f"C{host[i]}", f"C{i}"]):
+    for i in range(len(case["mods"])):
+        obj = collection
+        for part in H.class_path(case, i).split("."):
             obj = obj.members.get(part) if obj is not None and not getattr(obj, "is_alias", False) else None
         out.append(obj)
     return out
@@ -134,7 +138,7 @@ def _new_class(case, hist):
     import griffe
 
     j = hist["target"]
-    new = griffe.Class(f"C{j}", bases=[H.class_path(case, b) for b in hist["bases"]])
+    new = griffe.Class(H.cls_name(case, j), bases=[H.class_path(case, b) for b in hist["bases"]])
     for name, k in zip(H.NAMES, hist["members"]):
         if k == 1:
             new.set_member(name, griffe.Function(name))
@@ -159,14 +163,19 @@ def _load_pkg(case, root: Path, files):
         if resolve:
             call("total", loader.resolve_aliases, what=f"resolve_aliases after loading {name!r} of " + where)
 
+    late = hist.get("type") == "late"
+    if not late:
+        for top in H.lib_tops(case):
+            load(top)
     load(H.PKG)
     before = None
     if hist.get("type") == "late":
         # the subclasses' package is there, the bases' package is not: every class is queried, then the rest is loaded
         for i, g in enumerate(_find_classes(case, loader.modules_collection)):
-            if g is not None and H.pkg_of(case, case["mods"][i]) == H.PKG:
+            if g is not None and not H.in_lib(case, case["mods"][i]):
                 _query(g, H.class_path(case, i))
-        load(H.LIB)
+        for top in H.lib_tops(case):
+            load(top)
     elif hist.get("type") == "replace":
         before = _find_classes(case, loader.modules_collection)
     return before, loader
@@ -184,6 +193,10 @@ def _import_pkg(case, root: Path) -> list[list[str]]:
     ghost = types.ModuleType(H.NOTLOADED)
     ghost.Ext0 = type("Ext0", (), {"__module__": H.NOTLOADED})
     before = set(sys.modules)
+    tops = {H.PKG, *H.lib_tops(case)}
+    clash = tops & before
+    if clash:
+        raise HarnessError(f"generated top-level names {clash} are already imported in this process")
     sys.path.insert(0, str(root))
     sys.modules[H.NOTLOADED] = ghost
     for k, v in injected.items():
@@ -193,21 +206,22 @@ def _import_pkg(case, root: Path) -> list[list[str]]:
         out = []
         host = H.hosts(case)
         for i, m in enumerate(case["mods"]):
-            mod = importlib.import_module(f"{H.pkg_of(case, m)}.m{m}")
-            cls = getattr(mod, f"C{i}") if host[i] is None else getattr(getattr(mod, f"C{host[i]}"), f"C{i}")
-            out.append([f"{c.__module__}.{c.__qualname__}" for c in cls.__mro__[1:] if c.__module__.split(".")[0] in (H.PKG, H.LIB)])
+            mod = importlib.import_module(H.mod_path(case, m))
+            cn = H.cls_name
+            cls = getattr(mod, cn(case, i)) if host[i] is None else getattr(getattr(mod, cn(case, host[i])), cn(case, i))
+            out.append([f"{c.__module__}.{c.__qualname__}" for c in cls.__mro__[1:] if c.__module__.split(".")[0] in tops])
         return out
     finally:
         for k in injected:
             delattr(builtins, k)
         sys.path.remove(str(root))
         for name in set(sys.modules) - before:
-            if name.split(".")[0] in (H.PKG, H.LIB):
+            if name.split(".")[0] in tops or name.startswith(("r1_", "r2_", "r3_", "r4_")):
                 del sys.modules[name]
         sys.modules.pop(H.NOTLOADED, None)
         sys.path_importer_cache.pop(str(root), None)
-        sys.path_importer_cache.pop(str(root / H.PKG), None)
-        sys.path_importer_cache.pop(str(root / H.LIB), None)
+        for top in tops:
+            sys.path_importer_cache.pop(str(root / top), None)
         importlib.invalidate_caches()
 
 
@@ -429,7 +443,7 @@ def evaluate(case):
             if exp["status"] == "ok" and real[i] != [H.class_path(case, j) for j in exp["mro"]]:
                 raise HarnessError(f"oracle mismatch: imported MRO {real[i]} vs abstract {exp['mro']}\n{where}")
     if hist.get("type") == "late":
-        where = f"[history: {H.PKG} loaded and every class queried, then {H.LIB} loaded into the same collection]\n" + where
+        where = f"[history: {H.PKG} loaded and every class queried, then {H.lib_tops(case)} loaded into the same collection]\n" + where
     if hist.get("type") == "replace":
         # first state: the tree as loaded (an ordinary case); every class is judged = queried
         for i, exp in enumerate(expect):
@@ -441,7 +455,7 @@ def evaluate(case):
         if parent is None:
             _LAST[0], _LAST[1] = orig, expect0
             return fails, expect0
-        call("history", parent.set_member, f"C{j}", new, what=f"{parent.path}.set_member('C{j}', <new class>)")
+        call("history", parent.set_member, H.cls_name(case, j), new, what=f"{parent.path}.set_member({H.cls_name(case, j)!r}, <new class>)")
         case = H.final_case(case)
         expect = H.oracle(case)
         where = (
@@ -476,11 +490,18 @@ def describe(case, expect):
         classes.add(f"pkg:modules={max(case['mods']) + 1}")
         classes.add("pkg:really-imported" if _importable(case, expect) else "pkg:abstract-oracle-only")
         classes.add(f"pkg:resolve_aliases={bool(case['resolve'])}")
+        lib = case.get("lib")
+        if lib:
+            classes.add(f"pkg:two-distributions:{lib['style']}:{'twin-names' if case.get('clsnames') else 'unique-names'}")
+            paths = [H.class_path(case, i) for i in range(len(case["bases"]))]
+            anc = H.ancestors(case["bases"])
+            if any(paths[i].endswith("." + paths[a]) or paths[i].endswith(paths[a]) and paths[i] != paths[a] for i in range(len(paths)) for a in anc[i]):
+                classes.add("pkg:class-path-ends-with-ancestor-path")
         hist = case.get("history")
         if hist:
             classes.add(f"pkg:history-{hist['type']}")
             if hist["type"] == "late":
-                s = hist["split"]
+                s = case["lib"]["split"]
                 if any(isinstance(b, int) and case["mods"][b] < s <= case["mods"][i] for i, bs in enumerate(case["bases"]) for b in bs):
                     classes.add("pkg:history-late:class-derives-from-late-package")
             else:
